@@ -259,6 +259,7 @@ func addSolverStats(a *SolverStats, b SolverStats) {
 	a.Unsat += b.Unsat
 	a.Unknown += b.Unknown
 	a.Errors += b.Errors
+	a.Retries += b.Retries
 	a.Time += b.Time
 	if b.MaxQuery > a.MaxQuery {
 		a.MaxQuery = b.MaxQuery
